@@ -3,9 +3,13 @@ package c17
 
 import (
 	"bytes"
+	"encoding/json"
 	"fmt"
 	"os"
 	"path/filepath"
+	"sync"
+
+	"github.com/jhalter/mobius/verifshim"
 	"strings"
 	"time"
 
@@ -20,8 +24,114 @@ import (
 func init() {
 	core.Register(&core.Simple{
 		Id: "C17", Lvl: "exploration", Quick: 320, Thorough: 6000, PerBatch: 80, Width: 40, Timeout: 1500,
-		RuleText: "each case: an administrator disconnects a target at a random IPv4 address with option none / temporary / permanent ban (optionally after an earlier expired or temporary entry for the same address; or the case injects a ban entry whose expiry lies 2 s .. 24 h in the past or 1 min .. 24 h in the future); oracles: reply, target connection closed, every other client receives a user-left notice, ban entry in memory and in Banlist.yaml with expiry bracketed by the harness clock readings + 30 min (no slack), then reconnect attempts from the same address (other port), near-miss addresses (a.b.c.d0, 1a.b.c.d, neighbour host) and an unrelated address, before and after a restart on the same ban file: a banned address must get handshake reply + one ban notice + close with its login transaction unprocessed, all others must log in. distinct = (ban option or injected expiry class, restart phase, address class); non-trivial = every case",
-		Case: runCase,
+		RuleText: "each case: an administrator disconnects a target at a random IPv4 address with option none / temporary / permanent ban (optionally after an earlier expired or temporary entry for the same address; or the case injects a ban entry whose expiry lies 2 s .. 24 h in the past or 1 min .. 24 h in the future); oracles: reply, target connection closed, every other client receives a user-left notice, ban entry in memory and in Banlist.yaml with expiry bracketed by the harness clock readings + 30 min (no slack), then reconnect attempts from the same address (other port), near-miss addresses (a.b.c.d0, 1a.b.c.d, neighbour host) and an unrelated address, before and after a restart on the same ban file: a banned address must get handshake reply + one ban notice + close with its login transaction unprocessed, all others must log in. a stress batch has 4-8 administrators ban different users at the same moment and then restarts: every address must still be banned. distinct = (ban option or injected expiry class, restart phase, address class); non-trivial = every case",
+		Case:     runCase,
+		Extra: func(tier string, seed int64) []core.Batch {
+			n := 8
+			if tier == "thorough" {
+				n = 120
+			}
+			a, _ := json.Marshal(map[string]int{"runs": n})
+			return []core.Batch{{Name: "concurrent-bans", Args: a, Timeout: 1500}}
+		},
+		RunExtra: runConcurrentBans,
+	})
+}
+
+// runConcurrentBans: several administrators ban different users at the same moment; after a restart on the same ban
+// file every one of those addresses must still be refused.
+func runConcurrentBans(b core.Batch, em *core.Emitter) {
+	var a struct {
+		Runs int `json:"runs"`
+	}
+	json.Unmarshal(b.Args, &a)
+	core.Parallel(a.Runs, 8, func(run int) {
+		id := fmt.Sprintf("C17/concurrent-bans/%d", run)
+		core.SafeCase(em, id, func() {
+			em.Begin(id, nil)
+			r := core.NewRand(b.Seed, uint64(run), 0x17)
+			srv, err := fixture.New(fixture.Options{Accounts: []fixture.Account{
+				{Login: "admin", Name: "admin", Access: rc.AllBits()},
+				{Login: "guest", Name: "guest", Access: fixture.GuestBits()},
+			}})
+			if err != nil {
+				em.Emit(core.Result{Case: id, Verdict: core.Inconclusive, Msg: err.Error()})
+				return
+			}
+			defer srv.Close()
+			rounds := 6
+			if b.Tier == "thorough" {
+				rounds = 12
+			}
+			k := 4 + r.Intn(5)
+			res := core.Result{Case: id, Class: fmt.Sprintf("concurrent-bans/k%d", k), Verdict: core.Held, Obs: map[string]int{},
+				Sample: map[string]any{"concurrent_bans_per_round": k, "rounds": rounds}}
+			var admins []*refclient.Client
+			for i := 0; i < k; i++ {
+				ad, err := refclient.LoginAs(srv, fmt.Sprintf("10.17.9.%d:1", i+1), "admin", "", fmt.Sprintf("Adm%d", i))
+				if err != nil {
+					em.Emit(core.Result{Case: id, Verdict: core.Inconclusive, Msg: "login"})
+					return
+				}
+				admins = append(admins, ad)
+			}
+			var ips []string
+			banPath := filepath.Join(srv.ConfigDir, "Banlist.yaml")
+			for round := 0; round < rounds && res.Verdict == core.Held; round++ {
+				ids := map[int]uint16{}
+				base := len(ips)
+				for i := 0; i < k; i++ {
+					ip := fmt.Sprintf("%d.%d.%d.%d", 20+round, r.Intn(256), 1+i, 1+r.Intn(250))
+					name := fmt.Sprintf("T%d-%d", round, i)
+					if _, err := refclient.LoginAs(srv, ip+":999", "guest", "", name); err != nil {
+						em.Emit(core.Result{Case: id, Verdict: core.Inconclusive, Msg: "target login: " + err.Error()})
+						return
+					}
+					ips = append(ips, ip)
+				}
+				ul, _ := admins[0].Call(300)
+				us, _ := refclient.UserList(ul)
+				for _, u := range us {
+					for i := 0; i < k; i++ {
+						if string(u.Name) == fmt.Sprintf("T%d-%d", round, i) {
+							ids[i] = u.ID
+						}
+					}
+				}
+				start := make(chan struct{})
+				var wg sync.WaitGroup
+				acked := make([]bool, k)
+				for i := 0; i < k; i++ {
+					wg.Add(1)
+					go func(i int) {
+						defer wg.Done()
+						<-start
+						rep, ok := admins[i].CallDirect(110, rc.F(103, rc.U16(int(ids[i]))), rc.F(113, rc.U16(1+i%2)))
+						acked[i] = ok && rep.Err == 0
+					}(i)
+				}
+				close(start)
+				wg.Wait()
+				srv.Quiesce(refclient.Watchdog)
+				res.Obs["concurrent_ban_requests"] += k
+				// what a restart would read: a fresh ban list loaded from the file
+				fresh, err := verifshim.NewBanFile(banPath)
+				if err != nil {
+					res.Verdict, res.Key, res.Msg = core.Violated, "C17/concurrent-bans/restart-failed", fmt.Sprintf("after round %d of concurrent bans the ban file cannot be loaded: %v", round, err)
+					break
+				}
+				for i := 0; i < base+k; i++ {
+					if i >= base && !acked[i-base] {
+						continue
+					}
+					if banned, _ := fresh.IsBanned(ips[i]); !banned {
+						res.Verdict, res.Key = core.Violated, "C17/concurrent-bans/lost-after-restart"
+						res.Msg = fmt.Sprintf("round %d: %d administrators banned %d different addresses at the same moment and all were acknowledged, but a ban list freshly loaded from the file does not contain address #%d (%s)", round, k, k, i, ips[i])
+					}
+				}
+			}
+			em.Emit(res)
+		})
 	})
 }
 
